@@ -37,13 +37,17 @@ class Findings:
         return [violation(k, w, unit=k.split(":")[-1]) for k, (s, w) in sorted(self.by_key.items())]
 
 
-def elitism_case(find, values, dup, minimize, k, form, pre_evaluated):
+def elitism_case(find, values, dup, minimize, k, form, pre_evaluated, other_problem_first=False):
     """values: fitness per individual; dup: index of an individual that is presented a second time (or None)."""
     rep = IntRep()
     ff = TableFitness(list(values) + [0])
     problem = SingleObjectiveProblem(ff, minimize)
     tracker = single_tracker(problem)
     inds = [Individual(rep.create_genotype(None), rep) for _ in values]
+    if other_problem_first:
+        # a warm start: the individuals already carry a fitness for another, still alive problem that ranks them the other way
+        elitism_case.keep_alive = other = SingleObjectiveProblem(TableFitness([-(v if v == v and abs(v) != float("inf") else 0) for v in values] + [0]), minimize)
+        single_tracker(other).evaluator.evaluate(other, inds)
     pop = list(inds) + ([inds[dup]] if dup is not None else [])
     if pre_evaluated:
         tracker.evaluator.evaluate(problem, inds)
@@ -210,6 +214,20 @@ def run(tier: str, seed: int) -> dict:
                     evaluations += 1
                     if len(set(values)) > 1 and k < n:
                         nontrivial += 1
+    # 1b'. fitness values that differ only beyond single precision, and individuals evaluated under another problem before
+    for values in ((16777216.0, 16777217.0, 3.0), (1e9 + 3, 1e9 + 12, 5.0), (1.0, 1.0 + 1e-9, 0.5), (5.0, 1e9 + 12, 1e9 + 3)):
+        for perm in itertools.permutations(values):
+            for minimize in (False, True):
+                for k in (1, 2):
+                    ok = elitism_case(find, perm, None, minimize, k, "list", k == 1)
+                    evaluations += 1
+                    nontrivial += 1
+    for values in ((0, 1, 2), (2, 0, 1, 1), (3, 1, 2, 0)):
+        for minimize in (False, True):
+            for k in range(1, len(values)):
+                ok = elitism_case(find, values, None, minimize, k, "list", False, other_problem_first=True)
+                evaluations += 1
+                nontrivial += 1
     # 1c. one generation step with a reserved elitism slot, asked for fewer individuals than the population holds
     for values in ((0, 1, 2, 3, 9), (9, 0, 1, 2), (1, 1, 5, 1, 1, 1), (3, 2, 7)):
         for perm in itertools.islice(itertools.permutations(values), 12):
@@ -250,7 +268,7 @@ def run(tier: str, seed: int) -> dict:
                     if len(samples) < 8 and c > 0 and runs % 37 == 1:
                         samples.append(f"GP {label} pop={pop} minimize={minimize}: {c} generation transitions with a reserved elitism slot checked")
     rule = (
-        f"ElitismStep: all populations over {{0,1,2}}^n, n 1..{max_n}, optionally with one individual presented twice, and all populations over {{-inf,-1.5,0,2,+inf}}^n, n 1..3, that contain an infinite value, both directions, k 1..|pop|; one generation step ParallelStep([Elitism, Novelty]) asked for fewer individuals than the population holds (4 value sets x 12 orders x 3 weightings x every target), "
+        f"ElitismStep: all populations over {{0,1,2}}^n, n 1..{max_n}, optionally with one individual presented twice, and all populations over {{-inf,-1.5,0,2,+inf}}^n, n 1..3, that contain an infinite value, values that differ only beyond float32 precision, individuals that already carry a fitness for another problem, both directions, k 1..|pop|; one generation step ParallelStep([Elitism, Novelty]) asked for fewer individuals than the population holds (4 value sets x 12 orders x 3 weightings x every target), "
         "as list and as Population (pre-evaluated or not): exactly k members (multiset), no excluded individual strictly better than an included one "
         "(raw table values compared in the declared direction).  GP: 7 step compositions with a top-level ParallelStep containing an ElitismStep x "
         "population_size 2..12, 20, 30 x both directions x 10 generations on a random table landscape; for every generation in which the ElitismStep "
